@@ -468,7 +468,7 @@ pub fn run(ctx: &Ctx) {
         let poison = if mode == 3 || (idx % 7 == 0) { Some(((idx >> 3) as u8, (idx >> 5) as u8)) } else { None };
         WriteCase { poison, old, new, env0s }
     });
-    ctx.run_prop("write", wstrat, ctx.tier.pick(2500, 50_000), write_case_json, |c| {
+    ctx.run_prop("write", wstrat, ctx.tier.pick(8000, 50_000), write_case_json, |c| {
         if write_nontrivial(c) {
             ctx.class("write:nontrivial");
             ctx.nontrivial(hash_of(&write_case_json(c).to_string()));
@@ -482,7 +482,7 @@ pub fn run(ctx: &Ctx) {
         }
         check_write(ctx, &scratch.path, c)
     });
-    ctx.run_prop("read", read_case_strategy(), ctx.tier.pick(1500, 20_000), read_case_json, |c| {
+    ctx.run_prop("read", read_case_strategy(), ctx.tier.pick(5000, 20_000), read_case_json, |c| {
         let odd = c.files.iter().any(|f| !matches!(f.suffix, Suffix::Known(_)));
         let nested = c.files.iter().any(|f| matches!(f.scope, Sc::Process(_))) || !c.subdirs.is_empty();
         if odd && nested {
